@@ -586,6 +586,39 @@ func checkLoopVarCapture(p *Prog, r *Result, rule string, names []string) {
 					if k := g.roles[l].kind; k != "async" {
 						continue
 					}
+					// the iteration waits for something after it has started the goroutine (drains a channel, receives,
+					// Wait): the loop variable does not change while the goroutine runs — the usual
+					// "start producer, consume until closed" shape
+					joined := false
+					for _, st := range body.List {
+						if st.Pos() < l.Lit.End() {
+							continue
+						}
+						ast.Inspect(st, func(y ast.Node) bool {
+							switch z := y.(type) {
+							case *ast.FuncLit:
+								return false
+							case *ast.RangeStmt:
+								if t := f.typeOf(z.X); t != nil {
+									if _, isChan := t.Underlying().(*types.Chan); isChan {
+										joined = true
+									}
+								}
+							case *ast.UnaryExpr:
+								if z.Op == token.ARROW {
+									joined = true
+								}
+							case *ast.CallExpr:
+								if sel, ok := unparen(z.Fun).(*ast.SelectorExpr); ok && sel.Sel.Name == "Wait" {
+									joined = true
+								}
+							}
+							return true
+						})
+					}
+					if joined {
+						continue
+					}
 					for _, v := range vars {
 						if l.usesObj(l.Lit.Body, v) {
 							bad = append(bad, fmt.Sprintf("%s: goroutine captures loop variable %q", p.pos(l.Lit), v.Name()))
